@@ -37,12 +37,6 @@ theorem mkQuad_steep {t0 t1 : Tri} (h : tooSteep t0 t1) : mkQuad t0 t1 = .error 
   unfold mkQuad
   rw [if_pos h]
 
-/-- the six sides in the order of the passes' names (front, back, top, bottom, left, right in `FACE_MAP` numbers) -/
-def sides6 : List Nat := [4, 5, 1, 0, 2, 3]
-
-/-- the two hull triangles of side `s` -/
-def pairOf (Q : Hex) (hv : Nat → ITri × ITri) (s : Nat) : List Tri := [triP Q (hv s).1, triP Q (hv s).2]
-
 /-- the hull contract (`hv s` = the two halves of side `s`, either diagonal, any vertex order; twelve different
     triangles) and the one property of the block: triangles of different sides are more than 60° apart -/
 structure HullContract (Q : Hex) (hv : Nat → ITri × ITri) : Prop where
